@@ -15,9 +15,10 @@ from ..compile import World
 from ..ctx import CTX, InjectedFault, RunTooBig
 from ..history import History, canon, canon_outcome, digest, same
 from ..rng import Streams, chance, pick, weighted
-from ..sim import apply_op, build_sim, locations, preload, readable, stack_state, watch_spirals
+from ..sim import apply_op, build_sim, locations, preload, readable, stack_state, watch_calls, watch_spirals
 from ..world import gen_inputs, gen_request, gen_situation, gen_world
 from . import Result
+from .c17 import trace_nodes_match
 
 from openfisca_core import errors as of_errors
 from openfisca_core import periods
@@ -32,8 +33,9 @@ RULE = (
     "tracer simple or full, with or without a memory configuration; a fault-free pass numbers the fault "
     "sites of each request (formula entry, every variable read, every parameter read, formula return, "
     "every spill write/read); every site gets at least one fault and all (site x kind) placements when "
-    "within the per-scenario budget; each placement is one execution of the whole scenario with a heal "
-    "retry. An execution is non-trivial when its fault fired; distinct = distinct execution digests."
+    "within the per-scenario budget, plus one placement per site whose failure is caught by the formula "
+    "1, 2 or all variable reads further up, which then repeats its read and carries on; each placement "
+    "is one execution of the whole scenario with a heal retry. An execution is non-trivial when its fault fired; distinct = distinct execution digests."
 )
 COMPONENTS = {
     "real": [
@@ -110,6 +112,8 @@ def generate(seed: int, tier: str) -> dict:
         n_f = fr.randint(2, 3)
         for k in sorted(fr.sample(range(n_ops), min(n_f, n_ops))):
             ops[k]["fault"] = {"frac": round(fr.random(), 4), "kind_i": fr.randrange(64)}
+            if chance(fr, 0.3):
+                ops[k]["fault"]["catch_up"] = pick(fr, [1, 1, 2, 9])
         # retries: the same request while the fault persists, then once it is removed
         out = []
         for op in ops:
@@ -210,6 +214,8 @@ def execute(scn, world: World, plans: dict, res: Result, *, auto_heal: bool, rec
         twin = build_sim(world, scn["situation"], scn["knobs"], scn["inputs"])
         spirals = watch_spirals(sim)
         tspirals = watch_spirals(twin)
+        traced = bool(scn["knobs"].get("trace"))
+        calls = watch_calls(sim) if traced else None
         ref = None
         queue = [(k, op, plans.get(k)) for k, op in enumerate(scn["ops"])]
         qi = 0
@@ -224,12 +230,14 @@ def execute(scn, world: World, plans: dict, res: Result, *, auto_heal: bool, rec
                 res.count("probe:heal_by_input")
                 H.add("R", "set_input", [var, per, values])
             before = readable(sim, env)
+            roots_before = len(calls) if traced else 0
             if env.fs is not None:
                 env.fs.n["save"] = env.fs.n["load"] = 0
                 env.fs.fired = []
                 env.fs.faults = (plan or {}).get("io", {})
             out = apply_op(sim, world, do, (plan or {}).get("site"))
             fired = list(CTX.fired)
+            caught = list(CTX.caught)
             if env.fs is not None:
                 fired += [(f"{f[0]}{f[1]}", f[2]) for f in env.fs.fired]
                 n_io = dict(env.fs.n)
@@ -246,10 +254,15 @@ def execute(scn, world: World, plans: dict, res: Result, *, auto_heal: bool, rec
             st = stack_state(sim)
             failed = out[0] == "exc"
             step = len(H.events)
-            H.add("R", do[0], do[1:], canon_outcome(out), [sorted(map(list, after)), st, [list(map(str, f)) for f in fired]])
+            H.add("R", do[0], do[1:], canon_outcome(out), [sorted(map(list, after)), st, [list(map(str, f)) for f in fired],
+                                                                 [[c[0], type(c[1]).__name__] for c in caught]])
             res.count("steps")
             for f in fired:
                 res.count(f"fault:{f[1]}")
+            if caught:
+                res.count("fault:caught_by_a_formula")
+                if not failed:
+                    res.count("probe:request_succeeds_after_a_caught_failure")
             res.mark("states", digest([sorted([list(k), v] for k, v in locations(sim).items()), st["stack"], st["invalidated"]]))
             if failed and isinstance(out[1], of_errors.CycleError):
                 res.count("fault:true_cycle")
@@ -263,16 +276,18 @@ def execute(scn, world: World, plans: dict, res: Result, *, auto_heal: bool, rec
             if fired:
                 res.count("clause:C18.raised")
                 kind = fired[0][1]
-                if not failed:
+                # the caller the error must reach: the formula that handles it, else us
+                reached = caught[0][1] if caught else (out[1] if failed else None)
+                if reached is None:
                     res.violate("C18.raised", step, op=do, fired=fired, got="no exception")
                 elif kind in RAISE_KINDS:
-                    if not (isinstance(out[1], InjectedFault) and out[1].site == fired[0][0]):
-                        res.violate("C18.raised", step, op=do, fired=fired, got=type(out[1]).__name__)
-                elif not isinstance(out[1], EXPECTED[kind]):
-                    res.violate("C18.raised", step, op=do, fired=fired, got=type(out[1]).__name__)
+                    if not (isinstance(reached, InjectedFault) and reached.site == fired[0][0]):
+                        res.violate("C18.raised", step, op=do, fired=fired, got=type(reached).__name__)
+                elif not isinstance(reached, EXPECTED[kind]):
+                    res.violate("C18.raised", step, op=do, fired=fired, got=type(reached).__name__)
 
             # C18.nopartial -----------------------------------------------------
-            if failed:
+            if failed or caught:
                 res.count("clause:C18.nopartial")
                 for key in sorted(incomplete - completed):
                     if key in after and key not in before:
@@ -306,6 +321,21 @@ def execute(scn, world: World, plans: dict, res: Result, *, auto_heal: bool, rec
                             got=canon(after[key]),
                         )
 
+            # C18.trace ---------------------------------------------------------
+            # with tracing on, the trace of this request - failed, caught or not -
+            # is one new tree, node for node the harness's own call tree
+            if traced:
+                res.count("clause:C18.trace")
+                trees = sim.tracer.trees
+                problems = []
+                if len(trees) != len(calls):
+                    problems.append({"roots": [len(trees), len(calls)]})
+                else:
+                    for i in range(roots_before, len(calls)):
+                        trace_nodes_match(trees[i], calls[i], [i], problems)
+                if problems:
+                    res.violate("C18.trace", step, op=do, problems=problems[:3], fired=fired, caught=[[c[0], type(c[1]).__name__] for c in caught])
+
             # C18.later / C18.heal ---------------------------------------------
             if not failed or not fired:
                 # a request that did not fail by injection: the twin makes it too
@@ -315,7 +345,12 @@ def execute(scn, world: World, plans: dict, res: Result, *, auto_heal: bool, rec
                     tout = apply_op(twin, world, do)
                     comparable = profile == "acyclic" or (profile == "cyclic" and not spirals and not tspirals)
                     clause = "C18.heal" if op.get("heal") else "C18.later"
-                    if comparable:
+                    if caught and not comparable:
+                        # the first, failed attempt left completed values behind: the
+                        # repeated read meets another cache than a first read would,
+                        # and where the spiral heuristic cuts depends on it
+                        res.count("probe:caught_in_a_spiral_world_values_not_compared")
+                    elif comparable:
                         res.count(f"clause:{clause}")
                         if canon_outcome(tout) != canon_outcome(out):
                             res.violate(clause, step, op=do, expected=canon_outcome(tout), got=canon_outcome(out), oracle="twin")
@@ -345,6 +380,12 @@ def execute(scn, world: World, plans: dict, res: Result, *, auto_heal: bool, rec
                 res.count("clause:C18.heal")
                 if canon_outcome(tout) != canon_outcome(out):
                     res.violate("C18.heal", step, op=do, expected=canon_outcome(tout), got=canon_outcome(out), oracle="twin")
+        if traced:
+            try:
+                sim.tracer.get_serialized_flat_trace()
+                sim.tracer.computation_log.lines()
+            except Exception as e:  # noqa: BLE001
+                res.violate("C18.trace", len(H.events), problems=[{"serialize": f"{type(e).__name__}: {e}"[:200]}])
         if env.mem is not None:
             res.count("mem_reads", env.mem.reads)
         if env.fs is not None:
@@ -418,7 +459,12 @@ def placements(scn, world: World, sites: dict):
         rec = sites[k]
         for s, kind_rec in enumerate(rec["kinds"][:60], start=1):
             ks = applicable(world, kind_rec)
-            per_site.append([(k, "site", s, f) for f in ks])
+            group = [(k, "site", s, f) for f in ks]
+            # F1c: the same failure, handled by a formula further up (one kind per
+            # site, rotating; how far up rotates too)
+            f = ks[s % len(ks)]
+            group.append((k, "site", s, {**f, "catch_up": (1, 2, 9)[(s // len(ks)) % 3]}))
+            per_site.append(group)
         for n in range(1, rec["save"] + 1):
             per_site.append([(k, "io", ("save", n), {"kind": "enospc"}), (k, "io", ("save", n), {"kind": "enospc_torn", "torn": 40})])
         for n in range(1, rec["load"] + 1):
@@ -534,6 +580,8 @@ def _run(scn, world, res):
             s = 1 + min(n - 1, int(f["frac"] * n))
             ks = applicable(world, rec["kinds"][s - 1])
             plans[k] = {"site": {s: ks[f["kind_i"] % len(ks)]}}
+            if f.get("catch_up"):
+                plans[k]["site"][s] = {**plans[k]["site"][s], "catch_up": f["catch_up"]}
         sub = Result()
         H = execute(scn, world, plans, sub, auto_heal=False)
         res.count("executions")
